@@ -330,4 +330,5 @@ func main() {
 	partPdfStaged(r)
 	partWholeOps(r)
 	partMultiFill(r)
+	partAttachments(r)
 }
